@@ -137,7 +137,7 @@ meta("C14",
 meta("C15",
      rule="GFA1 (70%) / GFA2 graphs of 2-5 segments (names incl. ones ending in *n) with count tags, several dovetails per end, parallel links, containments, self-links, named edges; multiply(segment by name or instance, k in -1..4, distribute in {None, off, auto, equal, L, R}, given or automatic copy names); the text before/after is compared by an independent model: number/freshness/requested names of copies, identical fields and tags, count tags of segment and edges divided (floor..ceil), every dovetail/containment copied to the same neighbours with the same orientation/overlap, no invented edge, distribution semantics (every former neighbour stays linked, at most one end distributed), factor 1 / 0 / negative, rest of the graph textually unchanged, object graph closed and symmetric; non-trivial = segment with >=2 dovetails on one end or a containment and k>=2",
      budget={"quick": 20, "thorough": 300},
-     min_counts={"quick": {"multiplications": 8000, "invariant_evaluations": 4000, "configs": 30}},
+     min_counts={"quick": {"multiplications": 6000, "apply_copy_numbers_calls": 300, "invariant_evaluations": 4000, "configs": 30}},
      set_samples=["configs"])
 
 meta("C17",
